@@ -327,6 +327,7 @@ func (c *client) connect() (async.Future[internalConn], status.Status) {
 	}
 
 	routine = async.Run(c.connect1)
+	verifYield(19)
 	c.connecting.Set(routine)
 	return routine, status.OK
 }
